@@ -13,5 +13,27 @@ def run(v, tier, replay):
     if res is None:
         raise lib.Inconclusive("trreplay failed: " + err)
     nun = T.judge(v, "C15", behs, res)
+    # long session with replays from a third address: recorded from the real pair, judged by TLC
+    import os, re
+    binp = lib.go_build("trwrite")
+    sd = lib.scratch("vf-c15-")
+    tr = os.path.join(sd, "trace.ndjson")
+    rc, so, se = lib.run([binp, tr, str(lib.seed()), "1" if thorough else "0", "long"], timeout=1800)
+    if rc != 0:
+        raise lib.Inconclusive("trwrite failed: " + (so + se)[-3000:])
+    events = lib.read_ndjson(tr)
+    r = lib.tlc("Trace_HopTransport", "Trace_HopTransport.cfg", files={"trace.ndjson": "@" + tr}, workers=1, timeout=900)
+    v.add_tlc("Trace_HopTransport (long session, replays from a third address)", r)
+    if not r.ok:
+        raise lib.Inconclusive("trace not consumed by Trace_HopTransport: %s" % r.kind)
+    v.cov["traces_validated_against_impl"] += 1
+    for e in events:
+        v.case(("long", e["sent"], e["replays"], e["hidden"]))
+        v.sample(e)
+    for m in re.finditer(r'<<"MISMATCH", (\d+)>>', r.out):
+        e = events[int(m.group(1)) - 1]
+        if e["moved"] > 0:
+            v.violation("long session: replayed datagrams from a third address moved the peer address %d times (%d of %d replays delivered again)" % (e["moved"], e["redelivered"], e["replays"]),
+                        "real pair, faithful delivery of %d messages with replays of earlier datagrams from another address" % e["sent"], e)
     if nun and not v.viol:
         raise lib.Inconclusive("%d behaviours differ between model and code in ways no property clause explains" % nun)
